@@ -126,6 +126,6 @@ def run(tier, seed):
 MANIFEST = {
     "engine": "G",
     "technique": "stateless model checking of concurrent reads on one real download node: all delivery orders, early timers and consumer pause/stop decisions within a deviation bound; exhaustive (offset,size) grid at the default schedule",
-    "text": "Every range of a boundary grid is read from a real 3-segment CHK file and from literal files and compared with the plaintext slice; every multiset of concurrent ranges on one node is executed under all schedules within the deviation bound, the consumer's reaction (accept/pause/stop) at each write being a choice point. Explored reads (which the consumer may stop at any point, also before any share is known) are followed by further reads on the same node object, which must succeed.",
+    "text": "Every range of a boundary grid is read from a real 3-segment CHK file and from literal files and compared with the plaintext slice; every multiset of concurrent ranges on one node is executed under all schedules within the deviation bound, the consumer's reaction (accept/pause/stop) at each write being a choice point. Explored reads (which the consumer may stop at any point, also before any share is known) are followed by further reads on the same node object, which must succeed. Reads of a 300-byte file around AES block 10 and fresh-node reads under a too-small guess of the segment size are included.",
     "note": "Small file with tiny segments; honest servers; bounds in evidence.",
 }
